@@ -17,7 +17,9 @@ RULE = ('Histories: a duplicate-free candidate list (1-60 tuples of strings / in
         'batches, each with its own cap in 1..len+3 (caps change between steps); in "pipeline" histories the candidates are the '
         'feature-label pairs of a fixed column set and some batches go through mixed_rank_graph (heuristic Constant, target-only) '
         'so the real call site and its in-place shuffle are exercised; in "multi" histories two or three disjoint stable lists '
-        'share the sampler and every batch names the list it samples from (fairness is asserted per list). After every batch the model (a Counter of selections) '
+        'share the sampler and every batch names the list it samples from (fairness is asserted per list); "prior" histories run '
+        'mixed_rank_graph under a reference-model heuristic with an owned pool that records the submitted combinations; "large" '
+        'histories use 10 001-13 000 candidates with caps around and above 10^4. After every batch the model (a Counter of selections) '
         'and the invariants are checked. Exhaustive: every cap sequence of length <=5 (caps 1..len+1) over lists of 1-4 '
         'candidates. Non-trivial = >=3 batches, some cap < len and >=2 different caps; distinct = digest of the history.')
 ASSUMPTIONS = ['the oracle does not require a particular tie order among equally counted candidates',
@@ -35,6 +37,28 @@ def direct_history(draw):
     cands = draw(st.lists(st.lists(member(), min_size=arity, max_size=arity).map(tuple), min_size=n, max_size=n, unique=True))
     steps = draw(st.lists(st.integers(1, len(cands) + 3), min_size=1, max_size=40))
     return {'mode': 'direct', 'cands': [list(c) for c in cands], 'steps': [['d', c] for c in steps]}
+
+
+@st.composite
+def large_history(draw):
+    """Candidate lists and caps beyond 10^4 (the 3MR-only clamp must not leak into other heuristics)."""
+    n = draw(st.integers(10_001, 13_000))
+    steps = draw(st.lists(st.one_of(st.integers(9_990, 10_010), st.integers(10_001, n + 3), st.integers(1, n + 3)),
+                          min_size=2, max_size=4))
+    return {'mode': 'direct', 'cands_gen': n, 'steps': [['d', c] for c in steps]}
+
+
+@st.composite
+def prior_history(draw):
+    """Pipeline histories under a prior (reference-model) heuristic: combinations that involve reference-model features
+    are not candidates; the owned pool records which combinations are submitted for evaluation."""
+    ncols = draw(st.integers(3, 10))
+    names = [f'c{i}' for i in range(ncols)]
+    pos = draw(st.integers(0, ncols))
+    names.insert(pos, 'label')
+    ref = draw(st.lists(st.sampled_from([n for n in names if n != 'label']), min_size=1, max_size=max(1, ncols - 2), unique=True))
+    steps = draw(st.lists(st.integers(1, len(names) + 2), min_size=1, max_size=12))
+    return {'mode': 'prior', 'cols': names, 'ref': ref, 'steps': [['p', c] for c in steps]}
 
 
 @st.composite
@@ -146,6 +170,70 @@ def check_multi(lists, steps):
                                     kind='C07/counter')
 
 
+class RecordingPool(stubs.InlinePool):
+    """Owned pool that records the submitted combinations and returns a constant score (C07 is about WHICH combinations are
+    evaluated and counted, not about their scores; surrogate scorers would cost seconds per batch)."""
+
+    def __init__(self):
+        super().__init__()
+        self.submitted = []
+
+    def amap(self, f, xs):
+        xs = list(xs)
+        self.submitted.append(xs)
+        return stubs._Result([(x[0], x[1], 0.5) for x in xs])
+
+
+def check_prior(case):
+    import json
+    import os
+    import tempfile
+    cols = case['cols']
+    ref = list(case['ref'])
+    fd, path = tempfile.mkstemp(prefix='c07-ref-', suffix='.json')
+    with os.fdopen(fd, 'w') as fh:
+        json.dump({'desc': {'features': ref, 'fields': []}}, fh)
+    try:
+        stubs.reset_globals()
+        df = pd.DataFrame({c: ['0', '1', '0', '1'] for c in cols})
+        cands = [x for x in pipeline_candidates(cols) if x[0] not in ref and x[1] not in ref]
+        candset = set(cands)
+        model = Counter()
+        for si, (_, cap) in enumerate(case['steps']):
+            before = {c: model[c] for c in cands}
+            args = stubs.make_args(heuristic='surrogate-SGD', reference_model_JSON=path, combination_number_upper_bound=int(cap),
+                                   target_ranking_only='True')
+            pool = RecordingPool()
+            out = cr.mixed_rank_graph(df, args, pool, stubs.PBar()).triplet_scores
+            got = pool.submitted[0] if pool.submitted else []
+            where = f'batch {si + 1} (cap {cap}, prior heuristic, reference features {ref})'
+            if any(g not in candset for g in got):
+                raise Violation(f'{where}: evaluated non-candidates {[g for g in got if g not in candset][:3]}', kind='C07/foreign')
+            if len(got) != min(cap, len(cands)) or len(set(got)) != len(got):
+                raise Violation(f'{where}: {len(got)} combinations evaluated, expected min(cap, #candidates)={min(cap, len(cands))} '
+                                f'distinct ones', kind='C07/size')
+            chosen = set(got)
+            if chosen != candset and chosen:
+                mx_in = max(before[g] for g in chosen)
+                mn_out = min(before[c] for c in cands if c not in chosen)
+                if mx_in > mn_out:
+                    raise Violation(f'{where}: selected a candidate evaluated {mx_in}x while one evaluated {mn_out}x was left out',
+                                    kind='C07/least-evaluated')
+            for g in got:
+                model[g] += 1
+            impl = dict(cr.GLOBAL_PRIOR_COMB_COUNTS)
+            for c, v in impl.items():
+                if v != model.get(c, 0):
+                    raise Violation(f'{where}: reported count of {c} is {v}, it was evaluated in {model.get(c, 0)} batches',
+                                    kind='C07/counter')
+            if cands:
+                counts = [model[c] for c in cands]
+                if max(counts) - min(counts) > 1:
+                    raise Violation(f'{where}: evaluation counts differ by more than one: {sorted(counts)}', kind='C07/fairness')
+    finally:
+        os.unlink(path)
+
+
 def oracle(case, rec):
     if case['mode'] == 'multi':
         lists = [[tuple(c) for c in cl] for cl in case['lists']]
@@ -155,8 +243,16 @@ def oracle(case, rec):
         rec.cls('multi-list')
         check_multi(lists, steps)
         return
+    if case['mode'] == 'prior':
+        rec.cls('prior-heuristic')
+        rec.nt(len(case['steps']) >= 3 and len(set(c for _, c in case['steps'])) >= 2, key=case)
+        check_prior(case)
+        return
     if case['mode'] == 'direct':
-        cands = [tuple(c) for c in case['cands']]
+        cands = ([tuple(c) for c in case['cands']] if 'cands' in case
+                 else [(f'k{i}', 'label') for i in range(int(case['cands_gen']))])
+        if 'cands_gen' in case:
+            rec.cls('list>10^4')
         cols = None
     else:
         cols = case['cols']
@@ -205,7 +301,8 @@ def run(ctx):
     ctx.stats.per_kind['C07/exhaustive'] = {'evaluations': tot, 'nontrivial': totnt}
     ctx.extra['exhaustive_scope'] = f'all cap sequences of length <=5 (caps 1..len+1) over 1-4 candidates: {tot} histories'
     clauses = [
-        Clause('C07/history', lambda: st.one_of(direct_history(), pipeline_history(), multi_history()), oracle, quick=900, thorough=30000,
+        Clause('C07/history', lambda: st.one_of(direct_history(), direct_history(), pipeline_history(), pipeline_history(), multi_history(),
+                                                multi_history(), prior_history(), large_history()), oracle, quick=900, thorough=30000,
                quick_shards=6),
     ]
     drive(ctx, clauses)
